@@ -169,7 +169,7 @@ func (w *world) runConc(cc *Conc) {
 
 var propConc = vkit.Prop[Case]{
 	ID: "C17",
-	Rule: "concurrent sub-check (run from a -race binary): one RP with PKCE (both routers, cookie encryption on/off, client basic/post/none/private_key_jwt, auth style auto/params/header), ONE shared rp.AuthURLHandler built with 0-3 URL " +
+	Rule: "concurrent sub-check (run from a -race binary): one RP with PKCE (both routers, generated cookie keys: hash key 1-128 bytes, no / AES-128/192/256 encryption key, client basic/post/none/private_key_jwt, auth style auto/params/header), ONE shared rp.AuthURLHandler built with 0-3 URL " +
 		"parameter options, 2-8 goroutines (one browser each) released by a barrier performing 1-3 logins each; afterwards, sequentially, every login is judged like a sequential one (state cookie = state of its URL, " +
 		"S256(pkce cookie) = code_challenge of its URL, client_id / redirect_uri / scope) and its callback is delivered from a jar holding exactly its cookies (must complete; code_verifier at the token endpoint = its " +
 		"cookie); states and verifiers are pairwise distinct; a data race report kills the process and the case is reported; non-trivial = at least two goroutines; distinct = (configuration, options, logins per goroutine)",
